@@ -87,6 +87,20 @@ where
         shard.find(hash, |p| key.equivalent(p.key())).cloned()
     }
 
+    /// Remove the piece of the given key, if any.
+    ///
+    /// Used when the key is deleted: a piece that is still waiting in the write queue must not serve lookups anymore.
+    pub fn remove<Q>(&self, hash: u64, key: &Q)
+    where
+        Q: Hash + equivalent::Equivalent<K> + ?Sized,
+    {
+        let shard = self.shard(hash);
+        let mut shard = shard.write();
+        if let Ok(o) = shard.find_entry(hash, |p| key.equivalent(p.key())) {
+            o.remove();
+        }
+    }
+
     fn shard(&self, hash: u64) -> Arc<RwLock<Shard<K, V, P>>> {
         let index = (hash as usize) % self.inner.shards.len();
         self.inner.shards[index].clone()
